@@ -1,5 +1,11 @@
 """C09 — Working trees behave like an abstract versioned file system.
 
+(About a third of the runs end with a two-writer phase: two separately opened tree objects
+run independent add / rename_one / remove operations under lock_tree_write, pre-empted at
+the file operations of the tree lock (bzr: checkout lock on the transport seam; git:
+index.lock / index read / index commit); an operation that meets LockContention counts as
+not done; the re-opened tree must equal the model after exactly the acknowledged ones.)
+
 One run = one working tree (2a/dirstate or git/index) under a seeded sequence of 5-25
 operations generated from a simulation of the `treesim.MTree` model (user edits on disk,
 add / smart_add / mkdir / remove / rename_one / move / commit / revert / reopen /
@@ -20,7 +26,8 @@ PROPERTY = "C09"
 LEVEL = "exploration"
 RULE = (
     "one case = one seeded run: tree flavour (bzr dirstate | git index), a namespace of 3-6 paths of depth <= 3, op-mix weights and "
-    "5-25 model-generated operations; non-trivial = at least 3 state-changing operations were executed and compared; "
+    "5-25 model-generated operations (incl. rename_one/move with after=True onto occupied, just-added and unversioned targets), "
+    "in ~30% of the runs followed by a two-writer phase (2 actors x 1-3 independent operations, seeded schedule); non-trivial = at least 3 state-changing operations were executed and compared; "
     "distinct = distinct event-log digests of such runs (distinct model states counted separately)"
 )
 COMPONENTS = {
@@ -31,7 +38,7 @@ COMPONENTS = {
         "breezy.commit, breezy.transform (revert), 2a repository and branch in the same directory, local git repository",
         "a real directory on /dev/shm; bzr control files through the storage seam (sim+file://)",
     ],
-    "simulated": ["the user editing the tree (seeded operation sequence)", "process restart (drop the object, WorkingTree.open)"],
+    "simulated": ["the user editing the tree (seeded operation sequence)", "process restart (drop the object, WorkingTree.open)", "two concurrent writers (baton-passing threads with their own tree objects; pre-emption at every transport operation of the bzr checkout lock and at index.lock / index read / index commit of git trees)", "clock of breezy.lockdir (virtual) while a writer waits for the checkout lock"],
     "stub": ["UI (SilentUIFactory)", "user identity / BRZ_HOME (scratch)"],
 }
 ASSUMPTIONS = [
@@ -43,6 +50,7 @@ ASSUMPTIONS = [
     "revert is run with backups=False; commit with allow_pointless=True, explicit revision ids (bzr), timestamps and committer",
     "unknowns()/extras() follow each implementation's documented shape: bzr reports an unversioned directory but not its contents, git reports unversioned non-directories recursively",
     "states and operations that hit defects already reported (checks/treesim.py GUARDS: " + ", ".join(sorted(T.GUARDS)) + ") are left out while the guard is on; a guard is lifted in a share of the runs once known_findings.json has an open entry [property, 'known-defect', guard], and failures inside such a territory carry that signature",
+    "two-writer phase: the writers' operations are pairwise independent (no path of one at, below or above a path of another), so every serial order gives the same tree and the oracle is 'model after exactly the acknowledged operations'; a writer that meets LockContention/LockFailed drops its tree object and re-opens (a new command); both writers share one address space",
     "runs execute in-process (ISOLATION=thread): each run builds tree, model and Sim from scratch; random parts of lock/upload names are masked in the event log",
 ]
 STEP_CAP = 200000
@@ -55,6 +63,7 @@ ISOLATION = "thread"
 # otherwise P_LIFT of the runs lift the guards that have an open known_findings.json entry
 P_UNGUARDED = float(__import__("os").environ.get("VERIF_UNGUARDED", "0") or 0)
 P_LIFT = 0.2
+P_WRITERS = 0.3  # share of runs that end with a two-writer phase
 
 
 _warmed = []
@@ -76,6 +85,12 @@ def warm():
     import breezy.transform  # noqa: F401
     from simkit.sim import Sim
 
+    from . import storesim
+
+    # index / pack objects order by address otherwise: with ten or more packs in a run's
+    # repository the order of index reads would depend on the process history
+    storesim.install_pins()
+
     # one dry run per flavour: every lazily imported module is loaded before the fork
     saved = {k: os.environ.get(k) for k in ("VERIF_SCRATCH", "BRZ_HOME", "HOME")}
     tmp = tempfile.mkdtemp(prefix="verif-warm-", dir="/dev/shm")
@@ -84,7 +99,7 @@ def warm():
             sc = os.path.join(tmp, fl)
             os.makedirs(os.path.join(sc, "home"))
             os.environ.update(VERIF_SCRATCH=sc, BRZ_HOME=os.path.join(sc, "home"), HOME=os.path.join(sc, "home"))
-            plan = {"flavour": fl, "ops": WARM_OPS, "every": 1, "filters": [["a"], ["d/f", "zz"]]}
+            plan = {"flavour": fl, "ops": WARM_OPS, "every": 1, "filters": [["a"], ["d/f", "zz"]], "actors": WARM_ACTORS, "policy": "rr"}
             sim = Sim(1, plan, step_cap=10**6)
             try:
                 execute(sim, plan, warm_extra)
@@ -129,7 +144,11 @@ WARM_OPS = [
     {"o": "reopen"},
     {"o": "lockcycle"},
     {"o": "commit", "paths": None, "rev": "rev-12", "t": 1700000012},
+    {"o": "write", "p": "w1", "n": 13},
+    {"o": "write", "p": "w2", "n": 14},
+    {"o": "rename", "p": "a", "to": "w1", "after": 1},
 ]
+WARM_ACTORS = {"A": [{"o": "add", "p": "w1", "id": "w501"}], "B": [{"o": "add", "p": "w2", "id": "w502"}]}
 
 
 def config(tier):
@@ -156,6 +175,20 @@ def generate(rng, tier, compare=False):
     n = rng.randint(5, 25)
     ops = T.gen_ops(rng, model, n, weights, names)
     plan = {"flavour": flavour, "names": names, "weights": weights, "ops": ops}
+    if rng.random() < P_WRITERS:
+        # two-writer phase at the end of the run; a few fresh files give it something to add
+        for _ in range(rng.randint(0, 2)):
+            free = [n for n in "abcde" if model.can_create(n)]
+            if free:
+                op = {"o": "write", "p": rng.choice(free), "n": 400 + len(ops)}
+                model.apply(op)
+                ops.append(op)
+        scripts = T.gen_writers(rng, model, names)
+        if scripts:
+            plan["actors"] = scripts
+            plan["policy"] = rng.choice(["random", "pct", "pct", "pct", "rr"])
+            span = 8 if flavour == "git" else 60
+            plan["preempt_rel"] = sorted(rng.sample(range(1, span), rng.randint(1, 3)))
     if unguarded:
         plan["unguarded"] = unguarded
     if compare:
@@ -262,6 +295,90 @@ def refused_ok(exc):
     return mod in ("dromedary", "bzrformats", "dulwich") or type(exc).__name__ in ("NoSuchFile", "PathsNotVersionedError", "NotVersionedError")
 
 
+def run_writers(sim, tree, model, plan):
+    """Two writers (separately opened tree objects, as two processes would have) run their
+    scripts concurrently, pre-empted at the file operations of the tree lock / index.  An
+    operation that meets LockContention / LockFailed counts as not done.  The operations
+    are pairwise independent, so the final state must be the model after exactly the
+    acknowledged ones, in any order."""
+    from breezy import errors
+
+    fl = model.flavour
+    root = tree._sim_root
+    T.install_index_seam()
+    # what the model can predict in the state actually reached (shrinking may have changed it)
+    m = model.copy()
+    kept, flat = {}, []
+    for name in sorted(plan["actors"]):
+        kept[name] = []
+        for op in plan["actors"][name]:
+            if op.get("o") in T.WRITER_OPS and T.independent(op, flat) and m.classify(op) == "ok":
+                m.apply(op)
+                kept[name].append(op)
+                flat.append(op)
+    if sum(1 for v in kept.values() if v) < 2:
+        sim.event("writers", "skipped")
+        return tree
+    del tree
+    outcomes = {name: [] for name in kept}
+
+    def writer(name):
+        t = T.open_tree(root, fl)
+        for op in kept[name]:
+            res = "ok"
+            try:
+                t.lock_tree_write()
+            except (errors.LockContention, errors.LockFailed) as e:
+                res = "contention"
+                sim.probe("writer_contention")
+                t = T.open_tree(root, fl)  # the command ends; the next one starts afresh
+                outcomes[name].append((op, res, None))
+                sim.event("writer", name, json.dumps(op, sort_keys=True), res, type(e).__name__)
+                continue
+            err = None
+            try:
+                try:
+                    T.apply_op(t, model, op)
+                except (errors.LockContention, errors.LockFailed) as e:
+                    res, err = "contention", e
+                except Exception as e:  # noqa: BLE001 - judged by the main actor
+                    res, err = "raised", e
+            finally:
+                try:
+                    t.unlock()
+                except Exception as e:  # noqa: BLE001
+                    if res == "ok":
+                        res, err = "raised", e
+            outcomes[name].append((op, res, err))
+            sim.event("writer", name, json.dumps(op, sort_keys=True), res)
+
+    for name in sorted(kept):
+        if kept[name]:
+            sim.spawn(name, (lambda n=name: writer(n)))
+    sim.sched_policy = plan.get("policy", "random")
+    sim.preempt_at = {sim.steps + k for k in plan.get("preempt_rel", [])}
+    before = sim.switches
+    sim.run_actors()
+    sim.probe("writers_run")
+    if sim.switches > before:
+        sim.probe("writers_interleaved")
+    for name in sorted(kept):
+        a = sim.actors[name]
+        if a.exc is not None:
+            raise a.exc
+        for op, res, err in outcomes[name]:
+            if res == "raised":
+                T.fail(sim, "C09", "writer_raised", [fl, op["o"], type(err).__name__], "writer %s: %s raised %r (the model says it is valid and independent of the other writer's operations)" % (name, json.dumps(op), err))
+            if res == "ok":
+                model.apply(op)
+                sim.probe("writer_op_" + op["o"])
+    tree = T.open_tree(root, fl)
+    marker = {"o": "writers", "acknowledged": {n: [json.dumps(o, sort_keys=True) for o, r, _e in outcomes[n] if r == "ok"] for n in sorted(outcomes)}}
+    check_state(sim, tree, model, marker)
+    sim.state_seen(model.digest())
+    return tree
+
+
 def execute(sim, plan, extra=None):
     warm()
     T.quiet()
@@ -320,6 +437,8 @@ def execute(sim, plan, extra=None):
             extra(sim, tree, model, i, op)
         sim.event("obs", _h(_canon(obs)))
         sim.state_seen(model.digest())
+    if plan.get("actors"):
+        tree = run_writers(sim, tree, model, plan)
     sim.nontrivial = done >= 3
     if sim.notes.get("prop") is None:
         sim.notes.pop("territory", None)
